@@ -33,14 +33,6 @@ META = {
             "leaked wait); the step to 'eventually resumed under a fair scheduler' is not mechanised.",
 }
 
-KNOWN_SIGS = {
-    "futex-mismatch-slot-leak": "co_await futex.wait(x) with a non-matching value allocates a deposit slot and never returns it",
-    "wake-one-stops-at-cancelled": "wake_one() returned 0 although an untaken waiter was queued behind a node a canceller had taken",
-    "wake-all-next-after-release": "wake_all() follows node->next after finish_released: rest of the taken chain never resumed / foreign node resumed",
-    "null-executor-resume": "a task without bound executor (Cancellable proxy / its inner task) that suspends on a future crashes in BasicPromise::resume (null executor)",
-}
-
-
 # ------------------------------------------------------------------------------------------------ build
 def sha_files(paths, extra=""):
     h = hashlib.sha1(extra.encode())
@@ -212,10 +204,18 @@ DIRECTED = [
     ("d.cancellable", "0:c1.0;1:c0.1", "Q1,K0.0,S1|Q1,S0,K1.0", 40),
     ("d.future", "0:f0,F1;1:f0", "S0|S1", 20),
     ("d.task", "0:a1.0,ai.-;1:ai.1,a0.-", "S0|S1", 20),
-    ("d.noexec", "0:ci.0", "Q1,S0", 1),
+    ("d.noexec", "0:ci.0;1:ai.1,ci.-", "Q1,S0|S1", 6),
+]
+# programs for the variant driver (scheduling point after every unlock of futex.cpp, freed memory poisoned)
+DIRECTED_V = [
+    ("cbrace", "0:w1t;1:w1t", "W1,Y,W1,Y,W1,Y,W1,Y,W1,W1|Y,WA,Y,WA,Y,WA", 320),
+    ("w1cancel", "0:w1t;0:w1t", "Q2,K0.0,K1.0|Q2,W1,W1", 40),
+    ("wareuse", "0:w1t,w1;0:w1t,w1;1:w1t", "Q3,WA", 60),
+    ("race2", "0:w1t;1:w1t", "Q2,K0.0,W1|Q2,WA,K1.0", 40),
+    ("history", "0:w1t,w1t,w1t", "Q1,W1,Q2,K0.1,Q3,WA|K0.0,K0.2", 30),
 ]
 SMALL_DIRECTED = {"d.mismatch", "d.w1cancel", "d.wareuse", "d.race1", "d.race2", "d.history"}
-MON = ["once", "acct", "exec", "value", "nosusp", "w1", "wall", "leak", "stranded"]
+MON = ["once", "acct", "exec", "value", "nosusp", "w1", "wall", "leak", "stranded", "cbafter"]
 WHAT = {"once": "a co_await returned twice / a coroutine was resumed while running / a token cancelled twice",
         "acct": "resumed futex suspensions != wake_one + wake_all results + successful cancels",
         "exec": "a continuation ran outside the executor its coroutine is bound to",
@@ -224,22 +224,8 @@ WHAT = {"once": "a co_await returned twice / a coroutine was resumed while runni
         "w1": "wake_one returned 0 although an untaken waiter was queued during the whole call",
         "wall": "wake_all left a waiter that was queued when it began linked or untaken",
         "leak": "deposit-box slots still in use after every coroutine finished",
-        "stranded": "a suspended coroutine was never resumed although wake_all ran after it was queued"}
-
-
-def classify(mon_failed, cs, ts, value0):
-    """stable signature of a monitor failure; the three pre-fix behaviours of futex.h/futex.cpp get their own"""
-    has_k = "K" in ts
-    mism = any(o.startswith("w") and o.rstrip("t")[1:] != str(value0) for c in cs.split(";") if ":" in c
-               for o in c.split(":")[1].split(",")) or "V" in ts
-    multi = any(len([o for o in c.split(":")[1].split(",")]) >= 2 for c in cs.split(";") if ":" in c)
-    if mon_failed == "leak" and mism:
-        return "futex-mismatch-slot-leak"
-    if mon_failed == "w1" and has_k:
-        return "wake-one-stops-at-cancelled"
-    if mon_failed in ("stranded", "acct", "once", "leak", "crash") and "WA" in ts and multi and cs.count(";") >= 1:
-        return "wake-all-next-after-release"
-    return "mon-" + mon_failed
+        "stranded": "a suspended coroutine was never resumed although wake_all ran after it was queued",
+        "cbafter": "await_suspend fetched the on_suspend callback from an awaitable the continuation had already destroyed"}
 
 
 def main(argv):
@@ -247,6 +233,19 @@ def main(argv):
     thorough = chk.tier == "thorough"
     chk.translate(["coroutine"])
     built = {}
+
+    srcs = [os.path.join(VERIF, "harness/conc/c13_coroutine.cpp"),
+            os.path.join(REPO, "src/babylon/executor.cpp"),
+            os.path.join(REPO, "src/babylon/basic_executor.cpp"),
+            os.path.join(VERIF, "harness/shim/dsched.cpp")]
+
+    def build_variant():
+        # same driver; the lock_guard of futex.cpp yields after unlocking and freed memory is poisoned
+        built["variant"] = build_cached(chk, "c13_coroutine_v", srcs,
+                                        flags=["-fno-access-control", "-include", "shim/prelude.h", "-DC13_UNLOCK_POINT"],
+                                        ldflags=["-ldl"])
+    bv = threading.Thread(target=build_variant)
+    bv.start()
 
     def build():
         built["impl"] = build_cached(chk, "c13_coroutine",
@@ -258,9 +257,14 @@ def main(argv):
     bt = threading.Thread(target=build)
     bt.start()
     chk.coq("Properties_C13.v")
+    chk.log("coq done")
     model = chk.extract("co", "Extract_co.v", "co_driver.ml", explorer=True)
+    chk.log("extraction done")
     bt.join()
+    bv.join()
+    chk.log("drivers built")
     impl = built.get("impl")
+    variant = built.get("variant")
     rng = chk.rng
     progs = []   # (pid, cs, ts, small, nsched)
     if chk.replay:
@@ -270,8 +274,8 @@ def main(argv):
     else:
         fixed_sched = None
         for name, cs, ts, n in DIRECTED:
-            progs.append((name, cs, ts, name in SMALL_DIRECTED, n * (3 if thorough else 1)))
-        n_small, n_big = (45, 70) if not thorough else (250, 500)
+            progs.append((name, cs, ts, name in SMALL_DIRECTED, n * (5 if thorough else 2)))
+        n_small, n_big = (36, 120) if not thorough else (90, 500)
         seen = set()
         for small, n, gen in ((True, n_small, gen_small), (False, n_big, gen_big)):
             k = 0
@@ -281,7 +285,7 @@ def main(argv):
                     continue
                 seen.add((cs, ts))
                 progs.append(("%s%d" % ("s" if small else "b", k), cs, ts, small,
-                              (12 if small else 8) * (4 if thorough else 1)))
+                              (20 if small else 16) * (3 if thorough else 1)))
                 k += 1
     lines, meta = [], {}
     for pid, cs, ts, small, nsched in progs:
@@ -293,12 +297,45 @@ def main(argv):
             cid = "%s.%d" % (pid, si)
             lines.append("%s %d %d %d 1 %s %s" % (cid, seed, strat, nw, cs, ts))
             meta[cid] = (pid, cs, ts, small, seed, strat, nw)
-    chk.log("%d programs, %d cases" % (len(progs), len(lines)))
-    impl_out = chk.run_cases(impl, lines, timeout=900) if impl else {}
+    vlines = []
+    if not chk.replay or json.load(open(chk.replay))["replay"].get("variant"):
+        vprogs = [(n, c, t, k) for n, c, t, k in DIRECTED_V]
+        if chk.replay:
+            r = json.load(open(chk.replay))["replay"]
+            # the variant driver's schedules depend on the history of the process (first-use paths of the deposit box
+            # take more atomic operations), so a single (seed, strategy) is not reproducible in isolation: the replay
+            # re-runs the program of the case under many schedules
+            vprogs = [("r0", r["coroutines"], r["threads"], 400)]
+        for name, cs, ts, n in vprogs:
+            for si in range(n * (4 if thorough else 1)):
+                if fixed_sched and not chk.replay:
+                    seed, strat, nw = fixed_sched
+                else:
+                    seed, strat, nw = rng.below(1 << 31), [0, 3, 1, 0][si % 4], 3
+                cid = "v.%s.%d" % (name, si)
+                vlines.append("%s %d %d %d 1 %s %s" % (cid, seed, strat, nw, cs, ts))
+                meta[cid] = (name, cs, ts, False, seed, strat, nw)
+    if chk.replay and vlines:
+        lines = []
+    chk.log("%d programs, %d cases (+ %d on the variant driver)" % (len(progs), len(lines), len(vlines)))
+    impl_out = chk.run_cases(impl, lines, timeout=900) if impl and lines else {}
+    if variant and vlines:
+        # the variant driver leaves the process (exit 0) right after reporting a cbafter failure, before anything else
+        # touches the destroyed awaitable; run_cases books the following case as "CRASH rc=0": run those again
+        todo = vlines
+        for _ in range(8):
+            out = chk.run_cases(variant, todo, timeout=900)
+            again = [l for l in todo if out.get(l.split()[0], "").startswith("CRASH rc=0 ")]
+            impl_out.update({k: v for k, v in out.items() if not v.startswith("CRASH rc=0 ")})
+            if not again:
+                break
+            todo = again
+    chk.log("implementation runs done")
     model_sets = {}
     states = trans = 0
     if model:
-        mlines = ["%s 1 %s %s" % (pid, cs, ts) for pid, cs, ts, small, _ in progs if small]
+        cap = 1500000 if thorough else 400000
+        mlines = ["%s 1 %s %s gen %d" % (pid, cs, ts, cap) for pid, cs, ts, small, _ in progs if small]
         mo = chk.run_cases(model, mlines, timeout=1500)
         for pid, l in mo.items():
             if "outcomes=" not in l:
@@ -308,22 +345,21 @@ def main(argv):
             states += int(f.get("states", 0))
             trans += int(f.get("trans", 0))
             model_sets[pid] = (set(l.split("outcomes=", 1)[1].split(";")), f.get("trunc") == "true")
+    chk.log("model exploration done: %d states" % states)
     validated = 0
+    reported = set()
     distinct = set()
     for cid, l in impl_out.items():
         pid, cs, ts, small, seed, strat, nw = meta[cid]
         rep = {"coroutines": cs, "threads": ts, "seed": seed, "strategy": strat, "workers": nw, "small": small,
-               "impl_line": l[:600]}
+               "variant": cid.startswith("v."), "impl_line": l[:600]}
         if l.startswith("DSCHED-STUCK"):
             kind = "deadlock" if "deadlock" in l.split()[1] else "livelock"
             chk.violate("stuck-" + kind, "threads never finish (%s): %s" % (kind, l[:300]), rep)
             continue
         if l.startswith("CRASH"):
-            if "ci." in cs or "ai." in cs and pid == "d.noexec":
-                sig = "null-executor-resume"
-            else:
-                sig = classify("crash", cs, ts, 1)
-            chk.violate(sig, KNOWN_SIGS.get(sig, "implementation crashed") + ": " + l[:200], rep)
+            chk.violate("crash", "implementation crashed (double resumption / null executor / use after release): "
+                        + l[:200] + " [%s / %s]" % (cs, ts), rep)
             continue
         parts = l.split(" | ")
         if len(parts) != 3:
@@ -332,18 +368,18 @@ def main(argv):
         mon = dict(x.split("=", 1) for x in parts[2].split())
         for m in MON:
             if mon.get(m) != "1":
-                sig = classify(m, cs, ts, 1)
-                chk.violate(sig, "%s: %s [%s / %s] %s" % (WHAT[m], KNOWN_SIGS.get(sig, ""), cs, ts, mon.get("detail", "")), rep)
+                chk.violate("mon-" + m, "%s [%s / %s] %s" % (WHAT[m], cs, ts, mon.get("detail", "")), rep)
         distinct.add((pid, parts[1]))
         if small and pid in model_sets:
             outs, trunc = model_sets[pid]
             res, prog_ = parts[1].split(" / ")
             res = "|".join(",".join(x for x in th.split(",") if x != "y") for th in res.split("|"))
             validated += 1
-            if (res + " / " + prog_) not in outs and not trunc:
+            if (res + " / " + prog_) not in outs and not trunc and pid not in reported:
+                reported.add(pid)
                 chk.broke("correspondence", "COModel does not admit outcome of %s %s" % (cs, ts),
                           "impl outcome: %s\nmodel outcomes: %s" % (parts[1], sorted(outs)[:30]))
-    chk.cov["evaluations"] = len(lines)
+    chk.cov["evaluations"] = len(lines) + len(vlines)
     chk.cov["distinct_nontrivial"] = len(distinct)
     chk.cov["traces_validated_against_impl"] = validated
     chk.cov["states"] = states
